@@ -228,16 +228,20 @@ Abandon(create) ==
   /\ res' = "ok" /\ UNCHANGED <<files, didx, dcfg, astore>>
 
 \* Create on an existing collection with other settings
+MustCacheOf(c) == c.cache \/ c.async
 Switch(c) ==
   /\ Ready /\ WithSwitch /\ c # cfg /\ ~hnd.live /\ HSame
   /\ Log([op |-> "switch", cache |-> c.cache, async |-> c.async]) /\ Started
   /\ cfg' = c /\ Commit(midx, c)
   \* design: pending writes are flushed before asynchronous mode is left;
-  \* deviation: they stay in the pending store, unreadable and never flushed
+  \* deviation SwitchStrandsPending: they stay in the pending store, unreadable and never flushed
   /\ IF cfg.async /\ ~c.async /\ "SwitchStrandsPending" \notin Dev
      THEN FlushEffect ELSE UNCHANGED <<files, pending>>
+  \* design: when caching stops the cache is dropped (later writes would not maintain it);
+  \* deviation SwitchKeepsCache: it is kept, and comes back stale when caching is switched on again
+  /\ cache' = IF MustCache /\ ~MustCacheOf(c) /\ "SwitchKeepsCache" \notin Dev THEN Empty ELSE cache
   /\ res' = "ok"
-  /\ UNCHANGED <<loaded, midx, cache, slept, astore>>
+  /\ UNCHANGED <<loaded, midx, slept, astore>>
 
 -----------------------------------------------------------------------------
 (* Environment: the flusher goroutine and the clock                         *)
